@@ -6,7 +6,23 @@
     `use_skipped_iff`, `use_ok_iff`, `declare_clash_iff`) and block scoping for all bodies
     (`goStmt_stack`, `block_scoped`);
   * Scope/VarsSkip.lean — `skip_detected`: from any state with a pending `goto l`, through any
-    statements, a variable declared before `l:` and used after it is always rejected.
-  partial: the converse of `skip_detected` is checked by the three-way correspondence only.
+    statements, a variable declared before `l:` and used after it is always rejected;
+  * Scope/VarsTrace.lean — the converse, `no_false_e482`: whenever the analysis of a function reports
+    E482, the body contains, in textual order, a `goto l`, the declaration of the used variable, the
+    label `l:` (with no other `l:` between that goto and that label) and the use — the jump skips the
+    declaration and the use follows its target (history invariant `TInv`, `step_inv`).
 -/
 import PenneModel.Scope.VarsSkip
+import PenneModel.Scope.VarsTrace
+
+namespace Vars
+
+/-- the premise of `no_false_e482` is satisfiable, and its conclusion is what one expects on the smallest case -/
+example : 482 ∈ goFunction [] [] (.cons (.goto 1) (.cons (.decl 5 []) (.cons (.label 1) (.cons (.use [5]) .nil)))) := by
+  decide
+
+/-- and a body without the pattern is not rejected on these grounds -/
+example : 482 ∉ goFunction [] [] (.cons (.decl 5 []) (.cons (.goto 1) (.cons (.label 1) (.cons (.use [5]) .nil)))) := by
+  decide
+
+end Vars
